@@ -36,6 +36,8 @@ def build_world(rng, h, tmp, fmt, nres):
         p = os.path.join(tmp, f'{layout[k]}.{fmt}')
         os.makedirs(os.path.dirname(p), exist_ok=True)
         res = rset.create_resource(URI(p))
+        # each resource chooses its own addressing: uuids or positions / id attributes (every mix across the files)
+        res.use_uuid = rng.random() < .3
         for r in m.roots:
             res.append(r)
         paths.append(p)
@@ -349,7 +351,7 @@ def run(ctx):
     n = 200 if ctx.quick() else 4000
     ctx.rule = (f'{n} worlds: 2-3 generated models over one metamodel, each in its own file under 6 directory layouts (same dir, '
                 'sibling dirs, nested up to depth 3, same file name in different dirs), XMI and JSON, with references across them '
-                '(single, many, mixed with local targets, with and without opposites); all saved, one reloaded in a fresh resource set, '
+                '(single, many, mixed with local targets, with and without opposites), each file with or without uuids; all saved, one reloaded in a fresh resource set, '
                 'every reference followed, then the other files navigated directly: same target (resource, position), ==, hash, '
                 'membership, write-through, deletion (through the reference value or the direct instance: gone from its container and from every referrer), no extra resource entries. non-trivial & distinct = worlds with at least one cross reference')
     tmp = tempfile.mkdtemp(prefix='verif_c14_')
